@@ -101,7 +101,7 @@ theorem top_own_step (B S : Dict) (n : Text) (hn : n ∉ keys B) (hS : (keys S).
   have h1 := dget_last B n (.dict S) hn
   have h2 : dupdate [] S = S := by simpa using dupdate_nodup S [] (by simpa using hS)
   have h3 := dget_none_of_not_mem B n hn
-  simp [attachStep, dotted, h1, pyUpdate, h2, derase_append_single B n _ hn, nestedStep, reduceGet, h3]
+  simp [attachStep, dotted, h1, h2, derase_append_single B n _ hn, nestedStep, reduceGet, h3]
 
 theorem top_container_steps (B S M : Dict) (n : Text) (ps : List (List Text)) (out : List (List Text × Dict))
     (hn : n ∉ keys B) (hd : NoDot (keys B ++ [n])) (hS : (keys S).Nodup) (hne : ∀ p ∈ ps, p ≠ [])
@@ -137,9 +137,10 @@ theorem inner_var (v : Var) (hg : VarG v) : ∃ (M S : Dict) (ps : List (List Te
       by simp [expectVar, Var.name], nodup_keys_sort a hnd, by simp⟩
   | grid =>
     simp only [VarG] at hg
-    have hmem : ∀ m ∈ cs.reverse, m.name ∉ keys (sortKeys a) := by
-      intro m hm hk
-      exact (hg.2 m (List.mem_reverse.mp hm)).2 ((keys_sort_perm a).mem_iff.mp hk)
+    have hmem : ∀ m ∈ cs.reverse, ∀ e, dget (sortKeys a) m.name ≠ some (.dict e) := by
+      intro m hm e
+      rw [dget_sortKeys a hg.1]
+      exact (hg.2 m (List.mem_reverse.mp hm)).2 e
     refine ⟨sortKeys a, sortKeys a, cs.reverse.map (fun m => [m.name]), _, ?_, rfl,
       members_step (sortKeys a) cs.reverse hmem, ?_, nodup_keys_sort a hg.1, ?_⟩
     · rw [walkVar_nil, walk_leaves cs (fun m hm => (hg.2 m hm).1)]; simp [List.map_reverse, Var.name]
